@@ -95,7 +95,7 @@ def run(rep, tier, seed):
     rng = random.Random(seed * 3001 + 5)
     wd = workdir("c14")
     model_check(rep, tier, os.path.join(wd, "mc"))
-    nexp = 3000 if tier == "quick" else 40000
+    nexp = 10000 if tier == "quick" else 40000
     cases, metas = [], {}
     per_case = 12
     exps = []
